@@ -5,7 +5,7 @@ import numpy as np
 from .. import core, gen
 
 ID = 'C01'
-FOUNDATIONS = ['harness.foundation.filteriter', 'harness.foundation.cscalar']   # the models use the closed form proved by F6 (filterIter_refines)
+FOUNDATIONS = ['harness.foundation.filteriter', 'harness.foundation.cscalar', 'harness.foundation.pybody']   # the models use the closed form proved by F6 (filterIter_refines)
 LEAN_TARGETS = ['Mahotas.Proofs.FilterIter']
 LEVEL = 'proof'
 RULE = ('corpus; exhaustive boolean scope (all 3x4 images x 3x3 elements, also 1xn/nx1/2x2; quick = seeded slice); '
